@@ -51,6 +51,9 @@ pub struct H1Plan {
     pub cuts: Vec<usize>,
     pub gaps_us: Vec<u64>,
     pub read_cut: CutP,
+    /// how many bytes of a write the endpoint's socket takes at a time (short writes)
+    #[serde(default)]
+    pub write_cut: CutP,
     pub listener_timeout_us: u64,
     pub upload_buffer: usize,
 }
@@ -152,6 +155,7 @@ fn base_plan(rng: &mut Rng) -> H1Plan {
         cuts: vec![],
         gaps_us: vec![],
         read_cut: CutP::all(),
+        write_cut: CutP::all(),
         listener_timeout_us: 600_000_000 + FRACTION_US,
         upload_buffer: 32 * 1024,
     }
@@ -323,6 +327,7 @@ impl Scenario for H1 {
             }
         }
         p.read_cut = CutP::draw(&mut rng, 2048);
+        p.write_cut = CutP::draw(&mut rng, 512);
         p.upload_buffer = if rng.chance(1, 2) { 32 * 1024 } else { rng.size(1, 64 * 1024) as usize };
         to_plan(&p)
     }
@@ -480,6 +485,7 @@ async fn run(plan: H1Plan) -> Obs {
         64 * 1024,
         EpFaults {
             read_cut: plan.read_cut.to_cut(),
+            write_cut: plan.write_cut.to_cut(),
             ..Default::default()
         },
     );
